@@ -19,7 +19,7 @@ ANCHORS = ['phylib.io.datasets:download_file', 'phylib.io.datasets:_check_md5_of
 RULE = ('A scripted HTTP server on 127.0.0.1 (real sockets, real `requests`) serves, per case, a scripted '
         'sequence of data responses and a checksum behaviour; the case also fixes the prior state of the '
         'target file. EVERY data script of length 1..3 over {good, corrupt, 404} x checksum {correct, wrong, '
-        'missing} x prior file {absent, valid, corrupt} = 351 cases (quick and thorough); thorough adds '
+        'missing} x prior file {absent, valid, corrupt} = 351 cases (quick and thorough) + 24 cases with near-collision / truncated / empty / 150 KiB bodies and failing HEAD; thorough adds random '
         'truncated / empty / 150 KiB multi-chunk bodies, failing HEAD requests and per-request checksum '
         'scripts. The monitor is the server request log (M5) + return/exception + final file bytes, judged '
         'against the retry state machine of the statement. non-trivial = distinct scripts whose first '
@@ -27,7 +27,7 @@ RULE = ('A scripted HTTP server on 127.0.0.1 (real sockets, real `requests`) ser
 EXHAUSTIVE = {'quick': True, 'thorough': True}
 EXHAUSTIVE_SCOPE = {'quick': 'all 351 scripted fault sequences of the quantifier',
                     'thorough': 'the same 351 plus sampled extended fault kinds'}
-FLOORS = {'quick': {'evaluations': 351, 'distinct_nontrivial': 200, 'monitors': {'M5.data_get': 300}},
+FLOORS = {'quick': {'evaluations': 375, 'distinct_nontrivial': 200, 'monitors': {'M5.data_get': 300}},
           'thorough': {'evaluations': 5000, 'distinct_nontrivial': 2000, 'monitors': {'M5.data_get': 3000}}}
 ASSUMPTIONS = ['loopback HTTP is available in the sandbox; proxies disabled via no_proxy',
                'when the checksum is unavailable only "an HTTP error raises" and "file = last body served" '
@@ -36,7 +36,18 @@ NSHARDS = 16
 GOOD = b'GOOD-DATA-' + bytes(range(256)) * 4
 CORRUPT = b'BAD!-DATA-' + bytes(range(256)) * 4
 BIG = (b'0123456789abcdef' * 64) * 150           # 150 KiB: > 100 chunks of 1024 bytes
-BODIES = {'good': GOOD, 'corrupt': CORRUPT, 'truncated': GOOD[:-10], 'empty': b'', 'big_good': BIG,
+def _near(body, target):
+    """A different body whose MD5 shares its first 3 hex digits with target's (weak-compare bait)."""
+    t = hashlib.md5(target).hexdigest()[:3]
+    i = 0
+    while True:
+        b = body + str(i).encode()
+        if hashlib.md5(b).hexdigest()[:3] == t:
+            return b
+        i += 1
+
+
+BODIES = {'good': GOOD, 'corrupt_near': _near(CORRUPT, GOOD), 'corrupt': CORRUPT, 'truncated': GOOD[:-10], 'empty': b'', 'big_good': BIG,
           'big_corrupt': BIG[:-1] + b'X'}
 
 
@@ -131,9 +142,18 @@ def run_shard(desc, ctx):
     for i, c in enumerate(base_cases()):
         if i % desc['n'] == desc['shard']:
             run_case(c, ctx)
+    extra = [{'data': dd, 'md5': 'correct', 'prior': pr, 'good': 'good', 'head': hd}
+             for dd in (['corrupt_near'], ['corrupt_near', 'good'], ['corrupt_near', 'corrupt_near'],
+                        ['truncated', 'good'], ['empty', 'good'], ['big_corrupt', 'big_good'])
+             for pr in ('absent', 'corrupt') for hd in ('ok', 'fail')]
+    for i, c in enumerate(extra):
+        if i % desc['n'] == desc['shard']:
+            if c['data'][0].startswith('big'):
+                c['good'] = 'big_good'
+            run_case(c, ctx)
     if desc['tier'] == 'thorough':
         rng = np.random.default_rng([desc['seed'], desc['shard'], 20])
-        kinds = ['good', 'corrupt', '404', 'truncated', 'empty']
+        kinds = ['good', 'corrupt', '404', 'truncated', 'empty', 'corrupt_near']
         for i in range(10000 // desc['n']):
             big = rng.random() < 0.08
             L = int(rng.integers(1, 4))
